@@ -12,12 +12,43 @@
    distance, equal to 1 exactly at distance 0).
    `mweight fl sig s d x y` is the model's weight of edge s->d at image position (x,y).
 
-   Variants.  fl = fixed_len (false = the code as it is: projection divided by
-   max(len2,1); true = proposed repair of F1), fb = fixed_box (false = the code as it
-   is: strict filter box (0,xv[-1])x(0,yv[-1]); true = proposed repair of F23).  The
-   harness detects which variants the code implements; theorems hold for all four.
+   Variants.  fl = fixed_len (true = CURRENT tree, since fix 5bfaeb9: projection
+   divided by len2, by 1 only when len2 = 0; false = PINNED tree before that fix,
+   finding F1: divided by max(len2,1)), fb = fixed_box (true = CURRENT tree, since fix
+   f00ee7f: closed box [0,W-1]x[0,H-1]; false = PINNED tree before that fix, finding
+   F23: strict filter box (0,xv[-1])x(0,yv[-1])).  The harness detects which variants
+   the code implements (now: true, true) and ties the `false` variants to the
+   pre-repair source (proposed_fixes/C05_F1.diff, C05_F23.diff reverse-applied) on the
+   corpus witnesses and a sample of cases.  Theorems quantified over fl / fb hold for
+   all four combinations; the `..._refuted` / `..._partial` theorems and the F1 band
+   (c05_weight_at_most_true_weight, c05_weight_at_least_shifted_weight) are about the
+   HISTORIC variants: they document the repaired defects and let the check report a
+   regression.
    `len_ok fl s d` = the edge is outside selector_F1 and not of zero length
-   (fl = false: len2 >= 1;  fl = true: len2 > 0). *)
+   (fl = false: len2 >= 1;  fl = true: len2 > 0).
+
+   Partial division (round 4).  The model's distance_to_edge (`dist_edge`,
+   `dist_edge_div el` with an explicit divisor) and gaussian_pdf (`gauss_arg`) return
+   `option Q`, None = not a finite number (division by 0).  `mweight` is the exp of what
+   the model computes, 0 when that is None.  "Never NaN" below make_pafs therefore rests
+   on c05_projection_divisor_positive (the division guard), via
+   c05_distance_is_nan_iff_divisor_is_zero; ex_c05_unguarded_division_is_nan shows that
+   without the guard coincident endpoints give NaN.
+
+   Domain (round 4).  `in_domain fb samples H W s edges` (EdgeMaps.v; c05_in_domain_iff):
+   at least one sample, stride >= 1, node indices of every edge in range for every kept
+   animal.  Outside it the code raises (tie: case CGenChk) and the model's defaults
+   describe nothing; the whole-field theorems carry it as a hypothesis.  `i*s < H`,
+   `j*s < W` (a cell exists) imply H, W >= 1.
+
+   Reading of "animals wholly outside the image" (review finding 2): an animal is its
+   NODES; it is wholly outside iff no node lies in the closed pixel rectangle
+   [0,W-1]x[0,H-1] (the code's comment: "keep the instances that have at least one node
+   inside the image"; same filter as upstream SLEAP).  An animal whose two nodes lie
+   outside on opposite sides, so that the segment between them crosses the image, is
+   wholly outside in this reading and contributes exactly zero:
+   ex_c05_crossing_animal_dropped.  "Weight 1 on the segment" is proved for kept
+   animals. *)
 From Coq Require Import List Arith ZArith QArith Qreals Reals.
 Import ListNotations.
 From Coq Require Import Permutation.
@@ -32,20 +63,20 @@ Local Open Scope R_scope.
    well-defined (len2 > 0), has weight exponent <= 0 and |n| <= sqrt(len2) *)
 Theorem c05_flat_cell_is_sum_over_kept_animals :
   forall fl fb samples H W sig s edges e a b c i j,
-  (0 < sig)%Q -> (0 < s)%nat -> nth_error edges e = Some (a, b) -> (c < 2)%nat ->
+  (0 < sig)%Q -> in_domain fb samples H W s edges = true -> nth_error edges e = Some (a, b) -> (c < 2)%nat ->
   (i * s < H)%nat -> (j * s < W)%nat ->
   exists cl,
     cell3 (generate_pafs_flat fl fb samples H W sig s edges) (2 * e + c) i j = Some cl /\
     cval cl = Rsum (map (fun inst => pval (animal_contrib fl sig a b c (nat_Q (j * s)) (nat_Q (i * s)) inst))
                         (kept fb H W s (hd [] samples))) /\
     Forall term_ok cl.
-Proof. exact generate_pafs_flat_cell. Qed.
+Proof. exact flat_cell_dom. Qed.
 Print Assumptions c05_flat_cell_is_sum_over_kept_animals.
 
 (* same for the unflattened (E, 2, h, w) output *)
 Theorem c05_cell_is_sum_over_kept_animals :
   forall fl fb samples H W sig s edges e a b c i j,
-  (0 < s)%nat -> nth_error edges e = Some (a, b) -> (c < 2)%nat ->
+  in_domain fb samples H W s edges = true -> nth_error edges e = Some (a, b) -> (c < 2)%nat ->
   (i * s < H)%nat -> (j * s < W)%nat ->
   exists cl,
     cell4 (generate_pafs fl fb samples H W sig s edges) e c i j = Some cl /\
@@ -53,7 +84,7 @@ Theorem c05_cell_is_sum_over_kept_animals :
                   (kept fb H W s (hd [] samples)) /\
     cval cl = Rsum (map (fun inst => pval (animal_contrib fl sig a b c (nat_Q (j * s)) (nat_Q (i * s)) inst))
                         (kept fb H W s (hd [] samples))).
-Proof. exact generate_pafs_cell. Qed.
+Proof. exact cell_dom. Qed.
 Print Assumptions c05_cell_is_sum_over_kept_animals.
 
 (* fields of several animals add *)
@@ -126,7 +157,7 @@ Print Assumptions c05_unit_vector_direction.
    squared distance from the cell to the closed segment *)
 Theorem c05_projected_distance_is_segment_distance_partial :
   forall fl s d x y, len_ok fl s d ->
-  is_seg_dist2 (q2 s) (q2 d) (Q2R x, Q2R y) (Q2R (dist_edge fl s d x y)).
+  exists D, dist_edge fl s d x y = Some D /\ is_seg_dist2 (q2 s) (q2 d) (Q2R x, Q2R y) (Q2R D).
 Proof. exact model_dist_is_seg_dist2. Qed.
 Print Assumptions c05_projected_distance_is_segment_distance_partial.
 
@@ -164,7 +195,8 @@ Proof. exact seg_dist2_zero_iff. Qed.
 Print Assumptions c05_segment_distance_zero_iff_on_segment.
 
 (* weight 1 on the segment: FULL statement (every non-degenerate edge) is refuted for
-   the code as it is (F1), true outside the selector, true for all edges after the repair *)
+   the pinned tree before fix 5bfaeb9 (fl = false, F1; HISTORIC variant), true outside the
+   selector, true for all edges in the current tree (c05_repaired_weight_one_iff_on_segment) *)
 Theorem c05_weight_one_on_segment_refuted :
   exists sig s d x y,
     (0 < sig)%Q /\ selector_F1 false s d = true /\ ~ (len2 s d == 0)%Q /\
@@ -201,7 +233,9 @@ Theorem c05_len_ok_after_repair : forall s d, ~ (len2 s d == 0)%Q -> len_ok true
 Proof. exact len_ok_fixed. Qed.
 Print Assumptions c05_len_ok_after_repair.
 
-(* inside F1 the weight is still never larger than the one of the true distance *)
+(* inside F1 (HISTORIC variant fl = false; for fl = true these two are implied by
+   c05_repaired_weight_is_function_of_true_distance) the weight is still never larger than
+   the one of the true distance *)
 Theorem c05_weight_at_most_true_weight : forall fl sig s d x y v,
   (0 < sig)%Q -> is_seg_dist2 (q2 s) (q2 d) (Q2R x, Q2R y) v ->
   mweight fl sig s d x y <= paf_weight (Q2R sig) v.
@@ -229,9 +263,13 @@ Print Assumptions c05_unit_vector_on_segment_partial.
 
 (* ---- exact zeros ---- *)
 
+(* a missing endpoint = the node exists (index in range: outside, torch raises IndexError)
+   and is NaN *)
 Theorem c05_missing_endpoint_contributes_zero : forall fl sig a b c x y inst,
-  node inst a = None \/ node inst b = None -> animal_contrib fl sig a b c x y inst = None.
-Proof. exact animal_contrib_missing. Qed.
+  (a < length inst)%nat -> (b < length inst)%nat ->
+  nth_error inst a = Some None \/ nth_error inst b = Some None ->
+  animal_contrib fl sig a b c x y inst = None.
+Proof. exact animal_contrib_missing_dom. Qed.
 Print Assumptions c05_missing_endpoint_contributes_zero.
 
 Theorem c05_zero_length_edge_contributes_zero : forall fl sig a b c x y inst p q,
@@ -240,8 +278,9 @@ Theorem c05_zero_length_edge_contributes_zero : forall fl sig a b c x y inst p q
 Proof. exact animal_contrib_zero_length. Qed.
 Print Assumptions c05_zero_length_edge_contributes_zero.
 
-(* an animal with no node in the closed image rectangle [0,W-1]x[0,H-1] is dropped (by
-   the code's filter and by the repaired one) and a dropped animal changes nothing *)
+(* an animal with no node in the closed image rectangle [0,W-1]x[0,H-1] ("wholly outside":
+   see the header for this reading) is dropped (by the current filter and by the historic
+   one) and a dropped animal changes nothing *)
 Theorem c05_animal_outside_image_is_dropped : forall fb H W s inst,
   (0 < s)%nat -> (0 < H)%nat -> (0 < W)%nat ->
   (forall p, In p inst -> node_in_closed (nat_Q (W - 1)) (nat_Q (H - 1)) p = false) ->
@@ -256,7 +295,8 @@ Theorem c05_dropped_animal_contributes_nothing : forall fl fb l1 inst l2 rest H 
 Proof. exact dropped_animal_no_effect. Qed.
 Print Assumptions c05_dropped_animal_contributes_nothing.
 
-(* ---- which animals are kept (F23) ---- *)
+(* ---- which animals are kept (F23; the fb = false theorems are about the HISTORIC
+   filter of the pinned tree before fix f00ee7f; xv, yv non-empty = W, H >= 1) ---- *)
 
 Theorem c05_code_filter_keeps : forall H W xv yv inst,
   in_img false H W xv yv inst = true <->
@@ -270,7 +310,7 @@ Proof. exact grid_last. Qed.
 Print Assumptions c05_last_grid_coordinate.
 
 (* FULL statement "an animal with a node inside the image is kept" is refuted for the
-   code's filter: the animal (0,2)-(0,5) in an 8x8 image is dropped and cell (x=0,y=3),
+   HISTORIC filter (fb = false): the animal (0,2)-(0,5) in an 8x8 image is dropped and cell (x=0,y=3),
    which lies on its segment, holds no term (value 0 instead of the unit vector) *)
 Theorem c05_in_image_animal_kept_refuted :
   exists H W s inst,
@@ -290,24 +330,29 @@ Theorem c05_in_image_animal_kept_partial : forall H W s inst,
 Proof. exact in_image_animal_kept_partial. Qed.
 Print Assumptions c05_in_image_animal_kept_partial.
 
-(* after the repair: kept iff a node lies in the closed image rectangle *)
+(* current tree: kept iff a node lies in the closed image rectangle (W, H >= 1) *)
 Theorem c05_repaired_filter_keeps_in_image_animals : forall H W xv yv inst,
-  in_img true H W xv yv inst = true <->
-  exists x y, In (Some (x, y)) inst /\ (0 <= x <= nat_Q (W - 1))%Q /\ (0 <= y <= nat_Q (H - 1))%Q.
-Proof. exact fixed_box_keeps_in_image. Qed.
+  (0 < H)%nat -> (0 < W)%nat ->
+  (in_img true H W xv yv inst = true <->
+   exists x y, In (Some (x, y)) inst /\ (0 <= x <= nat_Q W - 1)%Q /\ (0 <= y <= nat_Q H - 1)%Q).
+Proof. exact fixed_box_keeps_in_image_dom. Qed.
 Print Assumptions c05_repaired_filter_keeps_in_image_animals.
 
 (* ---- shape and channel order ---- *)
 
+(* shape (2E, ceil(H/s), ceil(W/s)): `torch.arange(0, n, s)` has ceil(n/s) entries; the
+   statement's "H/stride" is exact for multiples of the stride (c05_grid_size_exact) *)
 Theorem c05_shape : forall fl fb samples H W sig s edges,
+  in_domain fb samples H W s edges = true ->
   shape4 (length edges) (ceil_div H s) (ceil_div W s) (generate_pafs fl fb samples H W sig s edges).
-Proof. exact generate_pafs_shape. Qed.
+Proof. exact shape_dom. Qed.
 Print Assumptions c05_shape.
 
 Theorem c05_flat_shape : forall fl fb samples H W sig s edges,
+  in_domain fb samples H W s edges = true ->
   length (generate_pafs_flat fl fb samples H W sig s edges) = (2 * length edges)%nat /\
   Forall (chan_ok (ceil_div H s) (ceil_div W s)) (generate_pafs_flat fl fb samples H W sig s edges).
-Proof. exact generate_pafs_flat_shape. Qed.
+Proof. exact flat_shape_dom. Qed.
 Print Assumptions c05_flat_shape.
 
 Theorem c05_grid_size_exact : forall q s, (0 < s)%nat -> ceil_div (q * s) s = q.
@@ -316,13 +361,15 @@ Print Assumptions c05_grid_size_exact.
 
 (* channels ordered edge0.x, edge0.y, edge1.x, ... *)
 Theorem c05_channel_order : forall fl fb samples H W sig s edges e c i j,
+  in_domain fb samples H W s edges = true ->
   (e < length edges)%nat -> (c < 2)%nat ->
   cell3 (generate_pafs_flat fl fb samples H W sig s edges) (2 * e + c) i j =
   cell4 (generate_pafs fl fb samples H W sig s edges) e c i j.
-Proof. exact generate_pafs_flat_channel. Qed.
+Proof. exact flat_channel_dom. Qed.
 Print Assumptions c05_channel_order.
 
-(* the DataPipe yields one field per example, equal to generate_pafs on that example *)
+(* (_def: unfolds the model) the DataPipe yields one field per example, equal to
+   generate_pafs on that example *)
 Theorem c05_datapipe : forall fl fb exs sig s edges flat k H W smp,
   nth_error exs k = Some (H, W, smp) ->
   nth_error (datapipe fl fb exs sig s edges flat) k =
@@ -333,8 +380,9 @@ Print Assumptions c05_datapipe.
 
 (* ==== round 2: widened statements (proofs: C05/Wide.v) ==== *)
 
-(* ---- the whole property in one statement, for the code as repaired (fixed_len = true,
-   fixed_box = true: the variants the harness detects on /repo) ----
+(* ---- the whole property in one statement, for the CURRENT tree (fixed_len = true,
+   fixed_box = true: the variants the harness detects on /repo), on the domain of
+   generate_pafs (in_domain: a sample exists, stride >= 1, node indices in range) ----
    `spec_contrib sig a b c p inst v` (Wide.v) is the property's own description of what
    one animal contributes to component c of edge (a,b) at image position p: v = 0 if an
    endpoint is missing or the two endpoints coincide, otherwise
@@ -342,17 +390,22 @@ Print Assumptions c05_datapipe.
    is THE squared distance from p to the closed segment.  Channel 2e+c of the flattened
    output, cell (i,j) = image position (j*stride, i*stride): the value is the sum of
    exactly these contributions over the animals of sample 0 that have a node in the
-   closed image rectangle [0,W-1]x[0,H-1]; every term is well defined (never NaN). *)
+   closed image rectangle [0,W-1]x[0,H-1] (each of which has both nodes of the edge in
+   range, so that "endpoint missing" in spec_contrib means a NaN keypoint); every term is
+   well defined (never NaN). *)
 Theorem c05_repaired_field_is_sum_of_weighted_unit_vectors :
   forall samples H W sig s edges e a b c i j,
-  (0 < sig)%Q -> (0 < s)%nat -> nth_error edges e = Some (a, b) -> (c < 2)%nat ->
+  (0 < sig)%Q -> in_domain true samples H W s edges = true ->
+  nth_error edges e = Some (a, b) -> (c < 2)%nat ->
   (i * s < H)%nat -> (j * s < W)%nat ->
   exists cl vs,
     cell3 (generate_pafs_flat true true samples H W sig s edges) (2 * e + c) i j = Some cl /\
     Forall2 (spec_contrib (Q2R sig) a b c (INR (j * s), INR (i * s)))
             (filter (existsb (node_in_closed (nat_Q (W - 1)) (nat_Q (H - 1)))) (hd [] samples)) vs /\
+    Forall (fun inst => (a < length inst)%nat /\ (b < length inst)%nat)
+           (filter (existsb (node_in_closed (nat_Q (W - 1)) (nat_Q (H - 1)))) (hd [] samples)) /\
     cval cl = Rsum vs /\ Forall term_ok cl.
-Proof. exact repaired_field_spec. Qed.
+Proof. exact repaired_field_spec_dom. Qed.
 Print Assumptions c05_repaired_field_is_sum_of_weighted_unit_vectors.
 
 (* spec_contrib pins the value down (so the theorem above determines every cell) *)
@@ -365,7 +418,7 @@ Print Assumptions c05_spec_contribution_unique.
    zero-length ones included (distance_to_edge / make_edge_maps are public and are
    defined for coincident endpoints: the segment is the point itself) ---- *)
 Theorem c05_repaired_projected_distance_is_segment_distance : forall s d x y,
-  is_seg_dist2 (q2 s) (q2 d) (Q2R x, Q2R y) (Q2R (dist_edge true s d x y)).
+  exists D, dist_edge true s d x y = Some D /\ is_seg_dist2 (q2 s) (q2 d) (Q2R x, Q2R y) (Q2R D).
 Proof. exact repaired_dist_is_seg_dist2. Qed.
 Print Assumptions c05_repaired_projected_distance_is_segment_distance.
 
@@ -389,38 +442,68 @@ Theorem c05_repaired_weight_nonincreasing_in_true_distance : forall sig s d x1 y
 Proof. exact repaired_weight_nonincreasing. Qed.
 Print Assumptions c05_repaired_weight_nonincreasing_in_true_distance.
 
-(* ---- never NaN below make_pafs: the projection is divided by a strictly positive
-   number for every edge in both variants (>= 1 in the old code), so distance_to_edge is
-   NaN exactly when an endpoint is; the distance is >= 0; a zero-length edge's distance is
-   the squared distance to the point; make_edge_maps is the exp of a number <= 0 ---- *)
+(* ---- never NaN below make_pafs.  The model's division is partial: distance_to_edge with
+   divisor el is NaN (None) exactly when el = 0.  The code's divisor, the guarded edge
+   length, is strictly positive for every edge in both variants (c05_projection_divisor_
+   positive: THE division guard), hence distance_to_edge is NaN exactly when an endpoint is
+   (Lemmas.dist_edge_some is proved from edge_len_pos; the four theorems below that say
+   "defined" all go through it); without the guard (divisor len2 itself) coincident endpoints
+   give NaN.  The distance is >= 0; a zero-length edge's distance is the squared distance to
+   the point; for sigma > 0 make_edge_maps is the exp of a number <= 0 ---- *)
 Theorem c05_projection_divisor_positive : forall fl s d, (0 < edge_len fl (len2 s d))%Q.
 Proof. exact edge_len_pos. Qed.
 Print Assumptions c05_projection_divisor_positive.
+
+Theorem c05_distance_is_nan_iff_divisor_is_zero : forall el s d x y,
+  dist_edge_div el s d x y = None <-> (el == 0)%Q.
+Proof. exact dist_edge_div_none_iff. Qed.
+Print Assumptions c05_distance_is_nan_iff_divisor_is_zero.
+
+(* the unguarded code (divisor = len2) is NaN exactly on zero-length edges *)
+Theorem c05_unguarded_distance_nan_iff_zero_length : forall s d x y,
+  (len2 s d == 0)%Q <-> dist_edge_div (len2 s d) s d x y = None.
+Proof. exact unguarded_dist_nan. Qed.
+Print Assumptions c05_unguarded_distance_nan_iff_zero_length.
+
+(* the code's distance_to_edge = the guarded divisor plugged in (_def), and it is defined *)
+Theorem c05_distance_defined_for_finite_endpoints : forall fl s d x y,
+  dist_edge fl s d x y = dist_edge_div (edge_len fl (len2 s d)) s d x y /\
+  exists D, dist_edge fl s d x y = Some D.
+Proof. exact dist_edge_defined. Qed.
+Print Assumptions c05_distance_defined_for_finite_endpoints.
+
+(* gaussian_pdf: NaN / not a weight exactly for sigma = 0 (outside the domain) *)
+Theorem c05_gaussian_defined_iff_sigma_nonzero : forall sig x, gauss_arg sig x = None <-> (sig == 0)%Q.
+Proof. exact gauss_arg_none_iff. Qed.
+Print Assumptions c05_gaussian_defined_iff_sigma_nonzero.
 
 Theorem c05_distance_defined_iff_endpoints_visible : forall fl s d x y,
   dist_edge_opt fl s d x y = None <-> s = None \/ d = None.
 Proof. exact dist_edge_opt_none_iff. Qed.
 Print Assumptions c05_distance_defined_iff_endpoints_visible.
 
-Theorem c05_distance_nonnegative : forall fl s d x y, (0 <= dist_edge fl s d x y)%Q.
+Theorem c05_distance_nonnegative : forall fl s d x y,
+  exists D, dist_edge fl s d x y = Some D /\ (0 <= D)%Q.
 Proof. exact dist_edge_nonneg. Qed.
 Print Assumptions c05_distance_nonnegative.
 
 Theorem c05_zero_length_edge_distance_is_point_distance : forall fl s d x y,
-  (len2 s d == 0)%Q -> (dist_edge fl s d x y == sq (x - fst s) + sq (y - snd s))%Q.
+  (len2 s d == 0)%Q ->
+  exists D, dist_edge fl s d x y = Some D /\ (D == sq (x - fst s) + sq (y - snd s))%Q.
 Proof. exact dist_edge_degenerate. Qed.
 Print Assumptions c05_zero_length_edge_distance_is_point_distance.
 
+(* (_def: unfolds the model) *)
 Theorem c05_edge_maps_cellwise : forall fl xv yv srcs dsts sig,
   make_edge_maps fl xv yv srcs dsts sig =
-  map (fun y => map (fun x => map2 (fun s d => option_map (gauss_arg sig) (dist_edge_opt fl s d x y))
+  map (fun y => map (fun x => map2 (fun s d => obind (gauss_arg sig) (dist_edge_opt fl s d x y))
                                    srcs dsts) xv) yv.
 Proof. exact make_edge_maps_eq. Qed.
 Print Assumptions c05_edge_maps_cellwise.
 
 Theorem c05_edge_map_defined_for_visible_endpoints : forall fl sig s d x y,
   (0 < sig)%Q ->
-  exists a, option_map (gauss_arg sig) (dist_edge_opt fl (Some s) (Some d) x y) = Some a /\
+  exists a, obind (gauss_arg sig) (dist_edge_opt fl (Some s) (Some d) x y) = Some a /\
             (a <= 0)%Q /\ exp (Q2R a) = mweight fl sig s d x y.
 Proof. exact edge_map_cell_defined. Qed.
 Print Assumptions c05_edge_map_defined_for_visible_endpoints.
@@ -442,7 +525,7 @@ Theorem c05_edge_maps_never_nan : forall fl xv yv srcs dsts sig,
 Proof. exact make_edge_maps_defined. Qed.
 Print Assumptions c05_edge_maps_never_nan.
 
-(* get_edge_points is indexing: (animal k, edge e = (a,b)) -> (node a, node b) of animal k *)
+(* (_def: unfolds the model) get_edge_points is indexing: (animal k, edge e = (a,b)) -> (node a, node b) of animal k *)
 Theorem c05_get_edge_points : forall insts edges k e inst a b,
   nth_error insts k = Some inst -> nth_error edges e = Some (a, b) ->
   (exists row, nth_error (fst (get_edge_points insts edges)) k = Some row /\
@@ -502,11 +585,21 @@ Theorem c05_multi_pafs_order_irrelevant :
 Proof. exact multi_pafs_order_irrelevant. Qed.
 Print Assumptions c05_multi_pafs_order_irrelevant.
 
+(* what a non-degenerate instance contributes to a cell of make_multi_pafs (the terms summed
+   by c05_multi_pafs_is_sum), in the property's vocabulary *)
+Theorem c05_multi_pafs_contribution_is_weight_times_unit_vector : forall fl sig e c x y sd p q,
+  @nth kp e (fst sd) None = Some p -> @nth kp e (snd sd) None = Some q -> ~ (len2 p q == 0)%Q ->
+  pval (contrib fl sig e c x y sd) = mweight fl sig p q x y * comp c (unit_vec_spec (q2 p) (q2 q)).
+Proof. exact contrib_value. Qed.
+Print Assumptions c05_multi_pafs_contribution_is_weight_times_unit_vector.
+
+(* (_def) *)
 Theorem c05_padding_instance_contributes_nothing : forall fl sig e c x y sd,
   @nth kp e (fst sd) None = None \/ @nth kp e (snd sd) None = None -> contrib fl sig e c x y sd = None.
 Proof. exact padding_contributes_nothing. Qed.
 Print Assumptions c05_padding_instance_contributes_nothing.
 
+(* (_def: reflexivity) *)
 Theorem c05_only_sample_0_is_used : forall fl fb smp rest H W sig s edges,
   generate_pafs fl fb (smp :: rest) H W sig s edges = generate_pafs fl fb [smp] H W sig s edges.
 Proof. exact only_sample_0. Qed.
@@ -532,7 +625,19 @@ Example ex_c05_repaired_border_animal_kept :
             = Some [t].
 Proof. eexists. vm_compute. reflexivity. Qed.
 
-Example ex_c05_degenerate_edge_map : (dist_edge true (1, 2)%Q (1, 2)%Q 4 6 == 25)%Q.
+Example ex_c05_degenerate_edge_map :
+  exists D, dist_edge true (1, 2)%Q (1, 2)%Q 4 6 = Some D /\ (D == 25)%Q.
+Proof. eexists. split; [vm_compute; reflexivity|vm_compute; reflexivity]. Qed.
+
+(* ... and the same coincident endpoints WITHOUT the guard (divisor len2 = 0): NaN.  The
+   division guard is what c05_distance_to_edge_never_nan rests on. *)
+Example ex_c05_unguarded_division_is_nan :
+  dist_edge_div (len2 (1, 2)%Q (1, 2)%Q) (1, 2)%Q (1, 2)%Q 4 6 = None /\
+  (forall fl, exists D, dist_edge fl (1, 2)%Q (1, 2)%Q 4 6 = Some D).
+Proof. split; [vm_compute; reflexivity|]. intros fl. eexists. apply dist_edge_some. Qed.
+
+(* sigma = 0 (outside the domain): no weight *)
+Example ex_c05_sigma_zero_no_weight : gauss_arg 0 5 = None.
 Proof. vm_compute. reflexivity. Qed.
 
 Example ex_c05_permutation : Permutation [[Some (1, 2)%Q]; [None]] [[None]; [Some (1, 2)%Q]].
@@ -541,3 +646,43 @@ Proof. apply perm_swap. Qed.
 Example ex_c05_coincident_endpoints_edge_map_defined :
   make_edge_maps true [0; 1]%Q [0]%Q [Some (1, 0)%Q] [Some (1, 0)%Q] 1 = [[[Some (-1#2)%Q]; [Some (0#2)%Q]]].
 Proof. vm_compute. reflexivity. Qed.
+
+(* ---- round 4: the domain of generate_pafs and the reading of "wholly outside" ---- *)
+
+(* what in_domain says; outside it the code raises (IndexError / RuntimeError; tie: CGenChk) *)
+Theorem c05_in_domain_iff : forall fb samples H W s edges,
+  in_domain fb samples H W s edges = true <->
+  exists smp rest, samples = smp :: rest /\ (0 < s)%nat /\
+    forall inst, In inst (kept fb H W s smp) ->
+      forall e a b, nth_error edges e = Some (a, b) -> (a < length inst)%nat /\ (b < length inst)%nat.
+Proof. exact in_domain_iff. Qed.
+Print Assumptions c05_in_domain_iff.
+
+(* (_def) the checked entry point: an output exactly on the domain *)
+Theorem c05_checked_entry_point : forall fl fb samples H W sig s edges out,
+  generate_pafs_checked fl fb samples H W sig s edges = Some out <->
+  in_domain fb samples H W s edges = true /\ out = generate_pafs fl fb samples H W sig s edges.
+Proof. exact checked_some_iff. Qed.
+Print Assumptions c05_checked_entry_point.
+
+Example ex_c05_in_domain :
+  in_domain true [[[Some (1, 1)%Q; Some (3, 1)%Q]]] 4 4 1 [(0, 1)%nat] = true /\
+  in_domain true [[[Some (1, 1)%Q; Some (3, 1)%Q]]] 4 4 1 [(0, 7)%nat] = false /\   (* IndexError *)
+  in_domain true [[[Some (9, 9)%Q; Some (9, 8)%Q]]] 4 4 1 [(0, 7)%nat] = true /\    (* no kept animal: torch does not index *)
+  in_domain true [] 4 4 1 [(0, 1)%nat] = false /\                                  (* instances[0]: IndexError *)
+  in_domain true [[[Some (1, 1)%Q; Some (3, 1)%Q]]] 4 4 0 [(0, 1)%nat] = false.    (* arange step 0: RuntimeError *)
+Proof. vm_compute. repeat split; reflexivity. Qed.
+
+(* review finding 2: both nodes outside (x = -2 and x = 6, image 4x4), the segment between
+   them crosses the image and grid cell (x=2, y=1) lies on it; the animal has no node in the
+   image = is wholly outside, is dropped and the cell holds no term (value 0).  With one
+   node moved into the image the same cell holds a term. *)
+Example ex_c05_crossing_animal_dropped :
+  in_img true 4 4 (grid 4 1) (grid 4 1) [Some (-2, 1)%Q; Some (6, 1)%Q] = false /\
+  on_segment (q2 (-2, 1)%Q) (q2 (6, 1)%Q) (Q2R 2, Q2R 1) /\
+  cell3 (generate_pafs_flat true true [[[Some (-2, 1)%Q; Some (6, 1)%Q]]] 4 4 2 1 [(0, 1)%nat]) 0 1 2 = Some [] /\
+  exists t, cell3 (generate_pafs_flat true true [[[Some (0, 1)%Q; Some (6, 1)%Q]]] 4 4 2 1 [(0, 1)%nat]) 0 1 2 = Some [t].
+Proof.
+  split; [vm_compute; reflexivity|]. split; [exact crossing_on_segment|].
+  split; [vm_compute; reflexivity|]. eexists. vm_compute. reflexivity.
+Qed.
